@@ -319,11 +319,23 @@ func g3Reviewed(p *Prog, fn string, fd *ast.FuncDecl, call *ast.CallExpr) (strin
 			return "Pow sqrt-of-even-power shortcut: exp = ±(dExp-bias)/2 lies in -3088..3088, plus the bias is in range", true
 		}
 	case "Decimal.Compose":
-		body := env.canonStmts(fd.Body.List)
-		lo := fmt.Sprintf("for(;(P3<K(%d));){", -specBias)
-		hi := fmt.Sprintf("for(;(P3>K(%d));){", specMaxBiasedExp-specBias)
-		if strings.Contains(body, lo) && strings.Contains(body, hi) && strings.Contains(arg, fmt.Sprintf("K(%d)+", specBias)) {
-			return "Compose: the two final loops bring the unbiased exponent into -6176..6111 (or return an error) before it is biased and narrowed", true
+		// interval of the unbiased exponent at the call, propagated through the clamping loops
+		if conv, ok := ast.Unparen(call.Args[2]).(*ast.CallExpr); ok && len(conv.Args) == 1 {
+			if be, ok := ast.Unparen(conv.Args[0]).(*ast.BinaryExpr); ok && be.Op == token.ADD {
+				var ev ast.Expr
+				var kb int64
+				if k, ok := p.constInt64(be.Y); ok {
+					ev, kb = be.X, k
+				} else if k, ok := p.constInt64(be.X); ok {
+					ev, kb = be.Y, k
+				}
+				if ev != nil && kb == specBias && p.exprKey(ev) != "" {
+					iv, reached := p.ivalWalk(fd.Body.List, ival{}, p.exprKey(ev), call)
+					if reached && iv.lo != nil && iv.hi != nil && iv.lo.Cmp(big.NewInt(-specBias)) >= 0 && iv.hi.Cmp(big.NewInt(specMaxBiasedExp-specBias)) <= 0 {
+						return fmt.Sprintf("Compose: interval analysis of the clamping loops gives %s in [%s, %s] at the call; biased it fits the 14-bit field", p.exprStr(ev), iv.lo, iv.hi), true
+					}
+				}
+			}
 		}
 	case "Decimal.add":
 		// compose(!o.Signbit(), oSig, oExp) in the zero-operand early return: handled as unmodified decompose exponent
